@@ -24,8 +24,8 @@
      clients          LSend (a client that resets its connection is not a label: for the server it is a connection of the
                       table like any other until its receive loop closes it; the close message is attempted on it, the
                       failed write does not concern the other connections — LPollBegin notifies each one on its own)
-   numInvoke of a connection is the length of the ghost list [busy]: a request is counted from the moment it is read
-   (LRead: handleConn increments before the handler is spawned or queued) until its response is written (LFinish),
+   numInvoke of a connection is the length of the ghost list [busy]: a request is counted from handleConn's increment
+   (LRead — a separate step after conn.Read returned it, LReadBytes) until its response is written (LFinish),
    i.e. also while it is Pending, Queued or in the dispatcher's hand. *)
 From Coq Require Import List NArith Bool Arith.
 Import ListNotations.
